@@ -27,6 +27,7 @@ _code_matches = []
 
 
 def find_core_tokens(string, root):
+    del _code_matches[:]
     delimiters = []
     matches = []
     escaped = False
